@@ -19,6 +19,8 @@ claims = {
          TECH + "allocation refusals (k-th call, burst, size limit, byte budget, giant requests) attached to operations; state compared with a model that skipped the failed operation"),
  "C08": ("sim-coll", "5 C08", "Each vector kind runs in lock-step with a std Vec model of the element values (mirrored for MutBumpVecRev): contents, length, return values, yielded elements and panic/no-panic on boundary and out-of-range arguments; capacity promises of with_capacity/reserve and buffer-address stability; fixed vectors never move and refuse when full; zero-sized elements report unlimited capacity.",
          TECH + "seeded operation sequences against a sequential reference model under simulated chunk sizes / grant policies and injected unwinds (refinement checking; the simulation-specific part is the environment and the faults)"),
+ "C09": ("sim-strs", "5 C09", "BumpBox<str>, FixedBumpString, BumpString and MutBumpString run in lock-step with std::string::String on text mixing 1-4 byte characters, NULs and combining marks with every byte index (boundary or not) as argument: contents, return values, panic/no-panic, from_utf8/utf16 (+lossy) on malformed input, formatting with Display impls that fail or unwind mid-way, C-string constructors; core::str::from_utf8 of the raw bytes must succeed after every operation including unwound and failed ones.",
+         TECH + "seeded operation sequences against std::String under simulated chunk sizes, allocation refusals and callbacks that fail or unwind (refinement checking; the simulation-specific part is the environment and the faults)"),
  "C10": ("sim-arena", "5 C10", "After every operation the Stats/Chunk identities, list symmetry, strictly growing sizes, header size/alignment per base-allocator kind, position alignment in force, count() = outstanding SimHeap blocks and AnyStats = Stats field by field are checked.",
          TECH + "per-step invariants over the public statistics API, cross-checked with the allocator seam's ledger"),
  "C12": ("sim-arena", "5 C12", "At the base-allocator seam: every requested chunk layout is well formed (multiple of 16 / header alignment, header alignment, header + request), each later chunk >= 2x previous - 16, a primitive request never obtains two chunks, giant layouts never arrive wrapped; with_capacity fits its layout.",
@@ -38,14 +40,14 @@ na = [
  ("C04", "compile-time property over programs: nothing executes, so there is no run, schedule, fault or history to simulate (DESIGN.md section 6)"),
  ("C11", "four pure functions of their input without state, environment, fault or interleaving; input-space search/proof is a different technique family (DESIGN.md section 6)"),
 ]
-pending = {"C09": "string world", "C17": "lock-step world", "C19": "pool world (shuttle)"}
+pending = {"C17": "lock-step world", "C19": "pool world (shuttle)"}
 for p, w in pending.items():
     if p not in claims:
         na.append((p, f"not claimed yet: the {w} serving this property (DESIGN.md section 5) is not built at this commit"))
 
 NOTE = ("Trusted: SimHeap, the interpreter's model (built from the documented safety contracts), the reference models, rustc. Sampling, not enumeration. "
         "Bounds: arena world <= 120 operations per run, nesting <= 7, 32 settings families x 5 minimum alignments, 5 base-allocator kinds, 5 grant policies; "
-        "collection world <= 80 operations per run, length <= 60, 6 settings x 3 of 5 element types (1/1, 4/4, 24/8, 16/16, zero-sized) x 5 vector kinds.")
+        "collection world <= 80 operations per run, length <= 60, 6 settings x 3 of 5 element types (1/1, 4/4, 24/8, 16/16, zero-sized) x 5 vector kinds; string world <= 60 operations per run, <= 200 bytes, 4 settings x 4 string kinds.")
 checks = []
 for p in sorted(claims):
     eng, ref, text, tech = claims[p]
@@ -75,6 +77,8 @@ m = {
     "kind_free_text": "seeded interpreter driving one real Bump<A,S> on SimHeap through every carrier; 32 settings families x 5 minimum alignments"},
    {"name": "sim-coll", "path": "/verif/sim/src/bin/coll", "serves_properties": [p for p in sorted(claims) if "coll" in claims[p][0]],
     "kind_free_text": "seeded interpreter driving the five vector kinds with tracked elements against a reference model and a drop ledger, on SimHeap"},
+   {"name": "sim-strs", "path": "/verif/sim/src/bin/strs", "serves_properties": [p for p in sorted(claims) if "strs" in claims[p][0]],
+    "kind_free_text": "seeded interpreter driving the four string types against std::string::String on SimHeap"},
    {"name": "simcore", "path": "/verif/simcore", "serves_properties": sorted(claims), "kind_free_text": "PRNG, SimHeap (the base-allocator seam), trace/replay format, worker protocol"},
  ],
  "checks": checks,
